@@ -7,7 +7,9 @@ RULE = ("push-heavy histories: random ones; lag scenarios (buffer 1..3, with a g
         "(quick) / n<=7 (thorough) pushes EVERY grouping of the pushes into arrays (metamorphic: identical stream observations "
         "required across the family).  Oracle on the implementation alone: yielded items are a prefix of the server's pushes for that "
         "subscription id after acceptance; an unsubscribe request is sent at most once per subscription and exactly once after an "
-        "explicit unsubscribe; lagging ends the stream with reason lagged")
+        "explicit unsubscribe; lagging ends the stream with reason lagged.  Sequence-form family (serde visit_seq): items as object form / "
+        "params-sequence `[sid,v]` / element-sequence `[\"2.0\",m,{..}]` inside arrays / both, closing error notifications and method "
+        "notifications in sequence form, sequence-form error objects in call and batch answers, arrays of the wrong length")
 
 
 def stream_obs(H, line):
@@ -25,6 +27,8 @@ def run(ctx):
     hs = C.c05_lag_histories(ctx.rng)
     hs += C.c05_drop_full_queue_histories(ctx.rng)
     hs += C.c12_mixed_array_histories(ctx.rng, nmax=2)
+    # serde's SEQUENCE forms of the derived structs (Notification / SubscriptionPayload / ErrorObject as JSON arrays)
+    hs += C.seqform_histories(ctx.rng, reps=ctx.scale(3, 40))
     hs += random_histories(ctx, ctx.scale(1500, 150000))
     outs = C.run_histories(ctx, hs, ["c05"])
     # lag scenarios: the stream must end, and end as lagged
